@@ -222,6 +222,7 @@ type ovFrame struct {
 	cons  []int
 	k     int
 	calls []call
+	fr    *framedReader // the reader / encoder of this dispatch
 }
 
 type ovState struct {
@@ -292,6 +293,34 @@ func (m ovMarker) HandleMessage(v stanza.Message, t xmlstream.TokenReadEncoder) 
 func (m ovMarker) HandlePresence(v stanza.Presence, t xmlstream.TokenReadEncoder) error {
 	return m.run(v.ID, t)
 }
+func (m ovMarker) HandleIQ(v stanza.IQ, t xmlstream.TokenReadEncoder, start *xml.StartElement) error {
+	err := m.run(v.ID, t)
+	if fr := m.st.frames[v.ID]; fr != nil && len(fr.calls) > 0 && start != nil {
+		fr.calls[len(fr.calls)-1].payload = start.Name
+	}
+	return err
+}
+
+// encDispatch renders what one dispatch of the overlap did: the calls of a message / presence,
+// or (IQ) the handler with the payload it was given and what it read / the default reply / nothing.
+func encDispatch(kind string, f *ovFrame) string {
+	if kind != "i" {
+		return encCalls(f.calls)
+	}
+	if len(f.calls) > 0 {
+		cl := f.calls[0]
+		return "h=" + cl.pat.Enc() + "@" + encName(cl.payload) + "=" + common.EncToks(cl.toks)
+	}
+	if f.fr != nil {
+		if reply, isReply := fallbackReply(f.fr.out); isReply && reply.typ == "error" && f.fr.other == 0 {
+			return "fallback@" + hx(reply.to) + "/" + hx(reply.from) + "/" + hx(reply.id)
+		}
+		if f.fr.wrote > 0 {
+			return "wrote"
+		}
+	}
+	return "nothing"
+}
 
 func encCalls(cs []call) string {
 	var obs []string
@@ -322,6 +351,8 @@ func (c *ctx) overlap(mode string, warm int, ps []Pat, ax string, consA []int, a
 			mk := ovMarker{pat: p, st: st}
 			if p.Kind == "m" {
 				mux.Message(stanza.MessageType(p.Typ), p.Name, mk)(m)
+			} else if p.Kind == "i" {
+				mux.IQ(stanza.IQType(p.Typ), p.Name, mk)(m)
 			} else {
 				mux.Presence(stanza.PresenceType(p.Typ), p.Name, mk)(m)
 			}
@@ -332,6 +363,9 @@ func (c *ctx) overlap(mode string, warm int, ps []Pat, ax string, consA []int, a
 	}
 	send := func(toks []xml.Token, st0 xml.StartElement) error {
 		fr := &framedReader{toks: toks[1:], framing: "sep"}
+		if f := st.frames[specHdr("i", st0.Attr).id]; f != nil {
+			f.fr = fr
+		}
 		start := st0.Copy()
 		return m.HandleXMPP(fr, &start)
 	}
@@ -398,7 +432,7 @@ func (c *ctx) overlap(mode string, warm int, ps []Pat, ax string, consA []int, a
 		return
 	}
 	fa, fb := st.frames["A"], st.frames["B"]
-	r.Line(line, encCalls(fa.calls)+"&"+encCalls(fb.calls))
+	r.Line(line, encDispatch(kindOfLocal(stA.Name.Local), fa)+"&"+encDispatch(kindOfLocal(stB.Name.Local), fb))
 	r.Case(line, st.fired, fmt.Sprintf("%s/overlap-%s/%d/%v", class, mode, warm, st.fired))
 	// every handler of either stanza reads ITS stanza from the start element
 	for _, d := range []struct {
@@ -412,6 +446,43 @@ func (c *ctx) overlap(mode string, warm int, ps []Pat, ax string, consA []int, a
 		}
 		kind := kindOfLocal(d.st.Name.Local)
 		typ := specHdr(kind, d.st.Attr).typ
+		if kind == "i" {
+			// the payload is the first child; its handler reads what follows inside the IQ
+			var inTok []xml.Token
+			for _, t := range d.toks[1 : len(d.toks)-1] {
+				if cd, isCD := t.(xml.CharData); isCD && len(inTok) == 0 && strings.TrimLeft(string(cd), " \n\r\t") == "" {
+					continue
+				}
+				inTok = append(inTok, t)
+			}
+			ps0, isStart := xml.StartElement{}, false
+			if len(inTok) > 0 {
+				ps0, isStart = inTok[0].(xml.StartElement)
+			}
+			if !isStart {
+				continue
+			}
+			req := specHdr("i", d.st.Attr)
+			obs := encDispatch("i", d.fr)
+			switch b := best(ps, "i", typ, ps0.Name); {
+			case b != nil && (len(d.fr.calls) != 1 || d.fr.calls[0].pat != *b):
+				r.Fail("most-specific", "overlap-iq-dispatch", lines, fmt.Sprintf("IQ %s: observed %s, want the handler of %s", d.id, obs, b.Enc()))
+			case b != nil:
+				wt := inTok[1:]
+				if n := d.fr.cons[0]; n < len(wt) {
+					wt = wt[:n]
+				}
+				if d.fr.calls[0].payload != ps0.Name || common.EncToks(d.fr.calls[0].toks) != common.EncToks(wt) {
+					r.Fail("full-stanza", "overlap-iq-view", lines, fmt.Sprintf("IQ %s (dispatched %s while another dispatch was in flight): the handler was given %v and read %s, want %v and %s", d.id, mode, d.fr.calls[0].payload, common.EncToks(d.fr.calls[0].toks), ps0.Name, common.EncToks(wt)))
+				}
+			case typ != "result" && typ != "error":
+				want := "fallback@" + hx(req.from) + "/" + hx(req.to) + "/" + hx(req.id)
+				if obs != want {
+					r.Fail("defaults", "overlap-request-unanswered", lines, fmt.Sprintf("unhandled IQ %s dispatched %s while another dispatch was in flight: observed %s, want %s", d.id, mode, obs, want))
+				}
+			}
+			continue
+		}
 		var want []*Pat
 		depth := 0
 		for _, t := range d.toks[1:] {
@@ -803,14 +874,18 @@ func (c *ctx) runE() {
 	// (2) overlapping dispatches: stanza B through the same multiplexer while a handler of stanza
 	// A is running, after 0..3 earlier dispatches; every handler ordinal of A x how far it had read
 	ovPs := []Pat{{Kind: "m", Typ: "chat", Name: xml.Name{}}, {Kind: "m", Typ: "chat", Name: q}, {Kind: "p", Typ: "unavailable", Name: xml.Name{}},
-		{Kind: "p", Typ: "", Name: xml.Name{Space: "urn:b"}}, {Kind: "m", Typ: "normal", Name: xml.Name{Local: "y"}}}
+		{Kind: "p", Typ: "", Name: xml.Name{Space: "urn:b"}}, {Kind: "m", Typ: "normal", Name: xml.Name{Local: "y"}},
+		{Kind: "i", Typ: "get", Name: xml.Name{Space: "urn:a"}}, {Kind: "i", Typ: "set", Name: xml.Name{Local: "q"}}}
 	as := []string{
+		`<iq id="A" type="get" from="a@example.org/r"><x xmlns="urn:a"><i/>t</x>tail</iq>`,
 		`<message id="A" type="chat"><first xmlns="urn:c"/><x xmlns="urn:a">t</x><second xmlns="urn:c"/></message>`,
 		`<message id="A" type="chat"><x xmlns="urn:a"/></message>`,
 		`<presence id="A" type="unavailable"><c xmlns="urn:b"/>  <x xmlns="urn:a"><i/></x><z xmlns="urn:c"/></presence>`,
 		`<message id="A" type="chat"/>`,
 	}
 	bs := []string{
+		`<iq id="B" type="set" from="b@example.net"><q xmlns="urn:d">text<j/></q></iq>`,
+		`<iq id="B" type="get" to="c@example.org"><unknown xmlns="urn:zz"/></iq>`,
 		`<message id="B" type="chat"><third xmlns="urn:c"/><x xmlns="urn:a"/></message>`,
 		`<presence id="B" type="unavailable"><q xmlns="urn:d">text</q></presence>`,
 		`<message id="B" type="chat"/>`,
